@@ -317,6 +317,14 @@ var failKinds = []failKind{
 	{"unsafe-prefix-before-shared-callee", `<a href="/ok?{{template "v" .}}">a</a><a href="javascript:{{template "v" .}}">b</a>`},
 	{"scheme-part-before-shared-callee", `<a href="/ok/{{template "v" .}}">a</a><a href="java{{template "v" .}}">b</a>`},
 	{"ambiguous-prefix-before-shared-callee", `<a href="/ok?{{template "v" .}}">a</a><a href="{{if .S}}javascript:{{else}}/p?{{end}}{{template "v" .}}">b</a>`},
+	{"unsafe-scheme-query-before-shared-callee", `<a href="/x?a={{template "v" .}}">a</a><a href="javascript:alert(1)//?{{template "v" .}}">b</a>`},
+	{"space-query-before-shared-callee", `<a href="/x?a={{template "v" .}}">a</a><a href=" javascript:alert(1)//?{{template "v" .}}">b</a>`},
+	{"scheme-completed-by-shared-callee", `<a href="https{{template "sch" .}}">a</a><a href="javascript{{template "sch" .}}">b</a>`},
+	{"scheme-colon-from-shared-callee", `<a href="x{{template "colon"}}{{.S}}">1</a><a href="javascript{{template "colon"}}{{.S}}">2</a>`},
+	{"trusted-prefix-before-shared-callee", `<script src="/{{template "ha" .}}"></script><script src="//{{template "ha" .}}"></script>`},
+	{"percent-completed-by-shared-callee", `<a href="/search/%2{{template "ipt" .}}">1</a><a href="javascr{{template "ipt" .}}">2</a>`},
+	{"before-value-joined-with-unquoted-value", `<a title={{if .N}}x{{end}} class="{{.S}}">y</a>`},
+	{"before-value-joined-with-unquoted-value-range", `<a title={{range .N}}x{{end}} class="{{.S}}">y</a>`},
 	{"else-if-chain-attribute-names-2", `<a {{if .N}}title{{else if .S}}href{{else}}title{{end}}="{{.S}}">x</a>`},
 }
 
@@ -327,7 +335,7 @@ func c05Scenario(k failKind) *hist.Scenario {
 		Init: `{{define "bad"}}{{mark "bad"}}BAD` + k.bad + `{{end}}` +
 			`{{define "cb"}}{{mark "cb"}}<p>CB{{template "bad" .}}</p>{{end}}` +
 			`{{define "ccb"}}{{mark "ccb"}}<i>CCB{{template "cb" .}}</i>{{end}}` +
-			`{{define "good"}}<b>{{.S}}</b>{{end}}{{define "li"}}<li title="{{.}}{{end}}{{define "v"}}{{.S}}{{end}}` +
+			`{{define "good"}}<b>{{.S}}</b>{{end}}{{define "li"}}<li title="{{.}}{{end}}{{define "v"}}{{.S}}{{end}}{{define "sch"}}://h/{{.S}}{{end}}{{define "colon"}}:{{end}}{{define "ha"}}a{{.S}}{{end}}{{define "ipt"}}ipt{{.S}}{{end}}` +
 			`{{define "bad2"}}{{template "bad" .}}{{end}}{{define "bad3"}}x{{template "bad2" .}}{{end}}` +
 			`{{define "rt"}}<em>partial</em><script src="{{.S}}"></script>{{end}}` +
 			`{{define "fix"}}{{mark "fix"}}{{template "bad" .}}x">ok</a>{{end}}` +
